@@ -1191,6 +1191,154 @@ def r16_7(ctx, only=None, rule='R16.7'):
     ctx.count(rule + '_null_guards', n_guard)
 
 
+def container_fillers(prog, allocs):
+    """{(tu, fn): set(param index)}: the function allocates and links the new
+    block into the record its i-th parameter points to (it does not return it)"""
+    out = {}
+    for f in prog.fns():
+        if not f.file.startswith('libyara/') and '/' in f.file:
+            continue
+        pn = [p['name'] for p in f.params]
+        fresh = set()
+        for n in f.all_nodes():
+            r = None
+            name = None
+            if n['k'] == 'decl' and n.get('c'):
+                r, name = cu.strip_casts(f, f.kid(n, 0)), n['name']
+            elif n['k'] == 'bin' and n['op'] == '=':
+                l = cu.strip_casts(f, f.kid(n, 0))
+                r = cu.strip_casts(f, f.kid(n, 1))
+                name = l['name'] if l is not None and l['k'] == 'ref' else None
+            if r is not None and name and r['k'] == 'call' and r.get('callee') in allocs:
+                fresh.add(name)
+        if not fresh:
+            continue
+        for n in f.all_nodes():
+            if n['k'] == 'bin' and n['op'] == '=':
+                r = cu.strip_casts(f, f.kid(n, 1))
+                if r is None or r['k'] != 'ref' or r['name'] not in fresh:
+                    continue
+                l = cu.strip_casts(f, f.kid(n, 0))
+                root = l
+                while root is not None and root['k'] in ('member', 'sub'):
+                    root = cu.strip_casts(f, f.kid(root, 0))
+                if l is not None and l['k'] == 'member' and root is not None and root['k'] == 'ref' and \
+                        root['name'] in pn and root['name'] not in fresh:
+                    # the block must not also be handed back through an out-parameter / return
+                    returned = any(x['k'] == 'ret' and x.get('c') and
+                                   f.show(cu.strip_casts(f, f.kid(x, 0))) == r['name'] for x in f.all_nodes())
+                    if not returned:
+                        out.setdefault((f.tu.name, f.name), set()).add(pn.index(root['name']))
+    return out
+
+
+def container_clearers(prog):
+    """functions that empty the container behind their first parameter: a loop that
+    frees (directly or through a popping helper) until nothing is left"""
+    poppers = set()
+    for f in prog.fns():
+        if not f.params:
+            continue
+        p0 = f.params[0]['name']
+        frees = [c for c in f.calls() if c.get('callee') in ('yr_free', 'free')]
+        if frees and any(x['k'] == 'member' and f.show(cu.strip_casts(f, f.kid(x, 0))) == p0 for x in f.all_nodes()):
+            poppers.add(f.name)
+    clear = set()
+    for f in prog.fns():
+        if not f.params:
+            continue
+        for n in f.all_nodes():
+            if n['k'] in ('while', 'for', 'do'):
+                if any(x['k'] == 'call' and (x.get('callee') in poppers or x.get('callee') in ('yr_free', 'free'))
+                       for x in f.walk(n)):
+                    clear.add(f.name)
+    return clear
+
+
+def r16_8(ctx, allocs=None):
+    """a local container filled through a helper is emptied on every failing exit"""
+    prog = ctx.prog
+    if allocs is None:
+        cg = CallGraph(prog)
+        allocs = alloc_like(prog, cg)
+    fillers = container_fillers(prog, allocs)
+    clearers = container_clearers(prog)
+    n = 0
+    for f in prog.fns():
+        if not f.file.startswith('libyara/') and not ctx.fixture:
+            continue
+        locals_rec = set(d['name'] for d in f.all_nodes() if d['k'] == 'decl' and d.get('rec'))
+        if not locals_rec:
+            continue
+        cont = {}
+        for c in f.calls():
+            g = prog.fn(c.get('callee', ''), f.tu) if c.get('callee') else None
+            if g is None or (g.tu.name, g.name) not in fillers:
+                continue
+            args = f.call_args(c)
+            for i in fillers[(g.tu.name, g.name)]:
+                if i < len(args):
+                    a = cu.strip_casts(f, args[i])
+                    if a is not None and a['k'] == 'un' and a['op'] == '&':
+                        v = cu.strip_casts(f, f.kid(a, 0))
+                        if v is not None and v['k'] == 'ref' and v['name'] in locals_rec:
+                            cont.setdefault(v['name'], []).append(c)
+        for q, fills in sorted(cont.items()):
+            n += 1
+            bad = []
+            fill_ids = set(c['i'] for c in fills)
+
+            def is_err(x):
+                e = cu.strip_casts(f, f.kid(x, 0)) if x.get('c') else None
+                if e is None:
+                    return False
+                v = cu.const_of(e)
+                if v is not None:
+                    return v != 0
+                return e['k'] == 'ref' and e['name'] in ('__error', 'result')
+
+            def step(x, facts, q=q):
+                if x['i'] in fill_ids:
+                    # the container holds something new only if this call succeeds
+                    return frozenset(facts) | {'justcalled'}
+                if x['k'] == 'call' and x.get('callee') in clearers:
+                    a = f.call_args(x)
+                    if a and f.show(cu.strip_casts(f, a[0])) == '&%s' % q:
+                        return frozenset()
+                if x['k'] == 'ret':
+                    if is_err(x) and 'filled' in facts and 'err' in facts:
+                        bad.append(x)
+                    return None
+                return facts
+
+            def edge(b, term, cond, idx, succ, facts):
+                # the FAIL_ON_ERROR idiom: only `__error != ERROR_SUCCESS` paths are failing exits
+                pol = paths.branch_polarity(f, term, idx)
+                if pol is None or cond is None:
+                    return facts
+                c, p2 = paths.normalise_cond(f, cond, pol)
+                if c is not None and c['k'] == 'bin' and c['op'] in ('!=', '==') and \
+                        f.show(cu.strip_casts(f, f.kid(c, 0))) in ('__error', 'result') and \
+                        cu.const_of(cu.strip_casts(f, f.kid(c, 1))) == 0:
+                    failing = (c['op'] == '!=') == p2
+                    out = set(x for x in facts if x not in ('err', 'justcalled'))
+                    if failing:
+                        out.add('err')
+                    elif 'justcalled' in facts:
+                        out.add('filled')
+                    return frozenset(out)
+                return facts
+            try:
+                paths.explore(f, set(), step, edge, max_states=4000)
+            except paths.Budget:
+                continue
+            ctx.ob('R16.8', '%s:%s:emptied-on-failure' % (f.name, q), not bad, f.loc(bad[0]) if bad else f.loc(fills[0]),
+                   'every failing exit after %s was filled passes a call that empties it' % q if not bad else
+                   '%s returns an error here while the local container `%s` may still hold blocks '
+                   'allocated by %s: they are leaked' % (f.name, q, fills[0].get('callee')))
+    ctx.count('local_containers', n)
+
+
 def _fx(which, **kw):
     def runner(ctx):
         cg, rc, allocs, nullable = _all(ctx)
@@ -1206,6 +1354,8 @@ def _fx(which, **kw):
             r16_6(ctx)
         elif which == 7:
             r16_7(ctx)
+        elif which == 8:
+            r16_8(ctx)
         else:
             r16_5(ctx)
     d = {'src': 'C16/errs.c', 'run': runner}
@@ -1237,6 +1387,8 @@ def run(ctx):
     ctx.floor('R16.6', 1)
     r16_7(ctx)
     ctx.floor('R16.7', 200)
+    r16_8(ctx, allocs)
+    ctx.floor('R16.8', 3)
     ctx.floor('R16.1', 1200)
     ctx.floor('R16.2', 180)
     ctx.floor('R16.3', 4)
